@@ -123,6 +123,24 @@ Theorem C18_annotation_structure : forall (E : Type) files mode (P : program E),
 Proof. exact (@annotate_ok). Qed.
 Print Assumptions C18_annotation_structure.
 
+(* The annotation keeps the block structure: as many BEGIN blocks, rules, END blocks and functions;
+   each rule keeps its pattern and has a body exactly when it had one; a body is empty exactly
+   when it was empty -- so whether the program is BEGIN-only (input never opened) is unchanged. *)
+Theorem C18_block_structure : forall (E : Type) files mode (P : program E), nocov_prog P = true ->
+  let A := fst (annotate files mode P) in
+  let same_shape := fun (l' l : list (cstmt E)) => l' = [] <-> l = [] in
+  Forall2 same_shape (p_begin A) (p_begin P)
+  /\ Forall2 same_shape (p_end A) (p_end P)
+  /\ Forall2 same_shape (p_funcs A) (p_funcs P)
+  /\ Forall2 (fun a' a => a_pat a' = a_pat a
+                /\ match a_body a', a_body a with
+                   | None, None => True
+                   | Some l', Some l => l' = [] <-> l = []
+                   | _, _ => False
+                   end) (p_actions A) (p_actions P).
+Proof. exact (@block_structure). Qed.
+Print Assumptions C18_block_structure.
+
 Theorem C18_partition_sum : forall (E : Type) files mode (P : program E),
   nocov_prog P = true -> sum_num (snd (annotate files mode P)) = nstmts_prog P.
 Proof. intros E files mode P H. exact (ao_sum _ _ _ _ _ (annotate_ok files mode P H)). Qed.
